@@ -24,17 +24,17 @@ theorem gen_metamericLossUniformStatsG_eq (E : GazeOps T G R Shape Sub) (cfg : M
     rfl
 
 /-- the regenerated `MetamericLossUniform.__call__` on an object whose target cache is `c`: the keyed-cache step with key = the prepared
-    target.  NOTE the extra hypothesis `hz`: a NEW object stores `zeros(target.shape)` as its target and then refreshes only if the
-    target differs from it - for an all-zero prepared target the first call does NOT compute `target_stats` (see
-    `gen_metamericLossUniform_zero_target_first_call_raises`) -/
+    target; a NEW object (`self.target is None`) always refreshes.
+    (Up to /repo 20de69e a new object stored `zeros(target.shape)` as its target and refreshed only if the target differed from it: for an
+    all-zero prepared target the first call skipped `calc_statsmaps` and raised on the unset `target_stats`; this theorem then needed the
+    hypothesis "the prepared target is not all zeros" and a companion theorem proved that the first call raises.  Fixed in 20de69e.) -/
 theorem gen_metamericLossUniformCallG_eq [DecidableEq T] (E : GazeOps T G R Shape Sub) (cfg : MetamericLossUniformCfg R) (stats : T → List T)
     (I : Sub → Prop)
     (hcore : ∀ sub, I sub → ∀ x, I (E.uniformStatsCore cfg sub x cfg.pooling_size).1 ∧
       (E.uniformStatsCore cfg sub x cfg.pooling_size).2 = stats x)
     (hext : ∀ a b : T, a = b ↔ (E.shape a = E.shape b ∧ E.allEq b a = true))
     (c : Option (T × List T)) (lm : Option T) (sub : Sub) (hsub : I sub) (x : MUArgs T)
-    (hok : E.inputsOk x.image x.target = true)
-    (hz : c = none → E.zeros (E.shape (muKey E cfg x)) ≠ muKey E cfg x) :
+    (hok : E.inputsOk x.image x.target = true) :
     ∃ lm' sub' log, I sub' ∧
       metamericLossUniformCallG E cfg (muToSelf c lm sub) x.image x.target x.image_colorspace x.visualise_loss =
         some (muToSelf (cacheStep stats c (muKey E cfg x)).1 lm' sub',
@@ -47,20 +47,9 @@ theorem gen_metamericLossUniformCallG_eq [DecidableEq T] (E : GazeOps T G R Shap
   by_cases hc : E.channels (E.pad image cfg.n_pyramid_levels) = 3 ∧ cs = "RGB"
   all_goals
     rcases c with _ | ⟨t0, v0⟩
-    · have hz' := hz rfl
-      have ht := hext (E.zeros (E.shape (muKey E cfg ⟨image, target, cs, vis⟩))) (muKey E cfg ⟨image, target, cs, vis⟩)
-      by_cases hs : E.shape (E.zeros (E.shape (muKey E cfg ⟨image, target, cs, vis⟩))) = E.shape (muKey E cfg ⟨image, target, cs, vis⟩)
-      case neg =>
-        simp [muKey, mlPrep, hc] at hs
-        cases hv : vis <;>
-        simp [metamericLossUniformCallG, muToSelf, muKey, mlPrep, muValueOf, cacheStep, cacheMiss, hok, hc, hv,
-          metamericLossUniformCalcStatsmapsG, metamericLossUniformVisualiseLossMapG, gen_metamericLossUniformStatsG_eq, hV, hI, hsub, hs]
-      cases ha : E.allEq (muKey E cfg ⟨image, target, cs, vis⟩) (E.zeros (E.shape (muKey E cfg ⟨image, target, cs, vis⟩)))
-      case true => exact absurd (ht.2 ⟨hs, ha⟩) hz'
-      simp [muKey, mlPrep, hc] at hs ha
-      cases hv : vis <;>
+    · cases hv : vis <;>
       simp [metamericLossUniformCallG, muToSelf, muKey, mlPrep, muValueOf, cacheStep, cacheMiss, hok, hc, hv,
-        metamericLossUniformCalcStatsmapsG, metamericLossUniformVisualiseLossMapG, gen_metamericLossUniformStatsG_eq, hV, hI, hsub, hs, ha]
+        metamericLossUniformCalcStatsmapsG, metamericLossUniformVisualiseLossMapG, gen_metamericLossUniformStatsG_eq, hV, hI, hsub]
     · have ht := hext t0 (mlPrep E cfg.n_pyramid_levels image target cs).2
       by_cases hs : E.shape t0 = E.shape (mlPrep E cfg.n_pyramid_levels image target cs).2
       case neg =>
@@ -83,22 +72,6 @@ theorem gen_metamericLossUniformCallG_eq [DecidableEq T] (E : GazeOps T G R Shap
         cases hv : vis <;>
         simp [metamericLossUniformCallG, muToSelf, muKey, mlPrep, muValueOf, cacheStep, cacheMiss, hok, hc, hv,
           metamericLossUniformCalcStatsmapsG, metamericLossUniformVisualiseLossMapG, gen_metamericLossUniformStatsG_eq, hV, hI, hsub, ha]
-
-/-- what the hypothesis `hz` excludes, in the regenerated source: on a NEW object a call whose prepared target equals
-    `zeros(target.shape)` finds "nothing changed", skips `calc_statsmaps` for the target and then reads the attribute `target_stats`
-    that was never assigned: the call raises (`none`), whatever the image -/
-theorem gen_metamericLossUniform_zero_target_first_call_raises (E : GazeOps T G R Shape Sub) (cfg : MetamericLossUniformCfg R)
-    (lm : Option T) (sub : Sub) (x : MUArgs T) (hv : x.visualise_loss = false)
-    (hsame : E.shape (E.zeros (E.shape (muKey E cfg x))) = E.shape (muKey E cfg x))
-    (hzero : E.allEq (muKey E cfg x) (E.zeros (E.shape (muKey E cfg x))) = true) :
-    metamericLossUniformCallG E cfg (muToSelf none lm sub) x.image x.target x.image_colorspace x.visualise_loss = none := by
-  obtain ⟨image, target, cs, vis⟩ := x
-  simp only at hv
-  subst hv
-  by_cases hc : E.channels (E.pad image cfg.n_pyramid_levels) = 3 ∧ cs = "RGB" <;>
-    cases hok : E.inputsOk image target <;>
-    simp [muKey, mlPrep, hc] at hsame hzero <;>
-    simp [metamericLossUniformCallG, muToSelf, hok, hc, hsame, hzero, metamericLossUniformCalcStatsmapsG]
 
 /-! ### `MetamerMSELoss` -/
 
